@@ -11,7 +11,9 @@
    Attributes are split by the shape of their value: [atoms] (strings, booleans, operators, types,
    plain objects: compared with ==, with Python truthiness) and [kids] (an element, or any
    sequence/tuple/dict structure of elements; a single element is a one-element list, None is []).
-   Tuples / dict entries inside such structures are pseudo objects of class [cls_tuple]. *)
+   An attribute holds one or the other; a keyed attribute contributes its plain value (by the rule
+   of its handler) and its element structure (when not empty).
+   Tuples / dict entries inside such structures are pseudo objects of class 0. *)
 From Coq Require Import List NArith ZArith Bool.
 Import ListNotations.
 
